@@ -367,6 +367,18 @@ def run(ctx: Ctx, tier: str) -> Result:
             cbs_field = v
     if cbs_field is not None:
         res.ok("C15.THREAD", {"pending store created per handler": "ThreadLocal(...) in TriggerHandler.__init__"})
+        # what a thread starts with holds every opening until its end: an unbounded deque / list (a bounded one drops the
+        # outermost pending context when the nesting is deeper than its bound)
+        prov = cbs_field.args[0] if cbs_field.args else next((k.value for k in cbs_field.keywords), None)
+        made = prov.body if isinstance(prov, ast.Lambda) else prov
+        unbounded = (isinstance(made, ast.Call) and norm(made.func) in ("deque", "collections.deque", "list") and not made.keywords and len(made.args) <= 1) or \
+            (isinstance(made, ast.List) and not made.elts) or (isinstance(made, ast.Name) and made.id in ("deque", "list"))
+        if unbounded:
+            res.ok("C15.ONCE", {"pending contexts kept in an unbounded stack": norm(made)})
+        else:
+            res.fail(Finding("C15.ONCE", worker.cls.qname + ".__init__", cbs_field, worker.module.relpath, "the per-thread stack of pending contexts is made by `%s`, not an unbounded deque / list: "
+                             "with more openings pending than it holds (deep recursion under a method span / capture) the outermost ones are dropped and never completed" % (
+                                 norm(made)[:60] if made is not None else "?")))
     else:
         res.fail(Finding("C15.THREAD", worker.cls.qname, "<self._callbacks = ThreadLocal(...)>", worker.module.relpath, "the pending callbacks are not kept in a per-handler ThreadLocal"))
     class_level = [k for k, v in tl.class_attrs.items() if isinstance(v, (ast.Dict, ast.List, ast.Set)) or (isinstance(v, ast.Call) and norm(v.func) in ("dict", "list", "set", "defaultdict"))]
